@@ -344,6 +344,47 @@ def run_impl(prog, direct, limit=FUEL, seconds=30):
         return parse_output(out.getvalue(), err_num)
 
 
+def run_impl_session(prog, cmds, limit=FUEL, seconds=30):
+    """the commands one after the other in ONE session; results joined with 55555 after every finished one"""
+    text = program_text(prog)
+    res = []
+    with common.new_session() as s:
+        with core.time_limit(seconds):
+            for line in text:
+                s.execute(line)
+            impl = s._impl
+            parser = impl.interpreter.parser
+            orig = parser.parse_statement
+            for cmd in cmds:
+                count = [0]
+
+                def counting(ins, count=count):
+                    count[0] += 1
+                    if count[0] > limit:
+                        raise StepLimit()
+                    return orig(ins)
+                parser.parse_statement = counting
+                out = io.BytesIO()
+                limited = False
+                with impl.io_streams.activate():
+                    s.add_pipes(output_streams=out)
+                    try:
+                        impl.execute(('RUN' if cmd is None else join(cmd)).encode('ascii'))
+                    except StepLimit:
+                        limited = True
+                    finally:
+                        parser.parse_statement = orig
+                        s.remove_pipes(output_streams=out)
+                if limited:
+                    return res + [3]
+                r = parse_output(out.getvalue(), impl.interpreter.error_num)
+                res += r
+                if r[0] == 2:
+                    return res
+                res.append(55555)
+    return res
+
+
 MSG_RE = re.compile(br'^(.*?)(?: in (\d+))?$')
 
 
@@ -681,6 +722,7 @@ class RefFlat(object):
         """-> ('fin'|'err'|'unmodelled'|'long', trace, err, line); steps are counted as the model counts them
         (line headers included)"""
         pos = (0, 0) if self.direct is None else (-1, 0)
+        self.trace = []
         if self.direct is None and not self.lines:
             return ('fin', self.trace, 0, 0)
         self.steps = 1 if self.direct is None else 0
@@ -691,6 +733,7 @@ class RefFlat(object):
                     nl = self.next_line(li)
                     if nl is None:
                         if li >= 0 and self.resume is not None:
+                            self.err, self.erl, self.in_handler = 19, self.lineno(li), False
                             return ('err', self.trace, 19, self.lineno(li))
                         return ('fin', self.trace, 0, 0)
                     pos = nl
@@ -716,9 +759,36 @@ class RefFlat(object):
                         self.in_handler = False
                         return ('err', self.trace, e.code, line)
         except Finish:
+            # END: the error being handled (if any) is forgotten
+            self.in_handler = False
+            self.resume = None
             return ('fin', self.trace, 0, 0)
         except Unmodelled:
             return ('unmodelled', self.trace, 0, 0)
+
+
+def ref_session(prog, cmds, max_steps=LONG):
+    """several commands typed one after the other (None = RUN, else a direct line); everything the interpreter
+    keeps between commands is kept; RUN clears variables, stacks, handler and error state"""
+    r = RefFlat(prog, None)
+    out = []
+    kinds = []
+    total = 0
+    for cmd in cmds:
+        if cmd is None:
+            hard = r.hard_math
+            r = RefFlat(prog, None)
+            r.hard_math = hard
+        else:
+            r.direct = list(cmd)
+        kind, trace, err, line = r.run(max_steps)
+        total += r.steps
+        kinds.append(kind)
+        out += canon(kind, trace, err, line)
+        if kind in ('long', 'unmodelled'):
+            return kinds, out, total
+        out.append(55555)
+    return kinds, out, total
 
 
 def ref_flat(prog, direct, max_steps=LONG):
@@ -1164,7 +1234,7 @@ class FlowCheck(core.Check):
     WITH_TRAP_REF = False     # C21: also evaluate the mode-structured reference semantics (FlowTrap.ref_run)
 
     def impl(self, case):
-        if case['k'] == 'single':
+        if case['k'] == 'single' or 'cmds' in case:
             return self._run(case)
         out = self._run(case)
         if case['k'] == 'struct' or self.WITH_TRAP_REF:
@@ -1179,6 +1249,11 @@ class FlowCheck(core.Check):
             if key not in cache:
                 cache[key] = run_single(case)
             return cache[key]
+        if 'cmds' in case:
+            key = core.sha([case['prog'], case['cmds']])
+            if key not in cache:
+                cache[key] = run_impl_session(case['prog'], case['cmds'], limit=2 * SHORT + 100)
+            return cache[key]
         key = core.sha([case['prog'], case.get('direct')])
         if key not in cache:
             # statement budget: FUEL for programs the reference runs for ever, else well above what the
@@ -1190,6 +1265,11 @@ class FlowCheck(core.Check):
     def model_term(self, case):
         if case['k'] == 'single':
             return single_model_term(case)
+        if 'cmds' in case:
+            cmds = '; '.join('CRun' if c is None else 'CDirect [%s]' % '; '.join(scoq(x) for x in c)
+                             for c in case['cmds'])
+            return 'run_session [%s] [%s] harness_fuel (init_at 0%%nat)' % (
+                '; '.join(scoq(x) for x in case['prog']), cmds)
         if case['k'] == 'struct':
             sp = sprog_coq(case['sp'])
             return ('(let p := %s in enc_run (run_program (compile_prog p) harness_fuel) ++ '
@@ -1203,6 +1283,8 @@ class FlowCheck(core.Check):
         return 'enc_run (%s %s harness_fuel)' % (fn, code)
 
     def expected(self, case):
+        if 'cmds' in case:
+            return ref_session(case['prog'], case['cmds'])[1]
         if case['k'] == 'struct':
             return ref_struct(case['sp'])[0]
         return ref_flat(case['prog'], case.get('direct'))[1]
@@ -1212,6 +1294,14 @@ class FlowCheck(core.Check):
             return single_oracle(case, self._run(case))
         got = self._run(case)
         want = self.expected(case)
+        if 'cmds' in case:
+            if want[-2:] == [2, 99]:
+                return None
+            if got != want:
+                return 'commands %s: reference semantics gives %s, the interpreter %s' % (
+                    ' / '.join('RUN' if c is None else join(c) for c in case['cmds']),
+                    show_session(want), show_session(got))
+            return None
         if want == [2, 99]:
             return None          # outside the modelled arithmetic: nothing is claimed
         if got != want:
@@ -1232,6 +1322,9 @@ class FlowCheck(core.Check):
             return d
         d = dict(case)
         d['text'] = program_text(case['prog'])
+        if 'cmds' in case:
+            d['command'] = ['RUN' if c is None else join(c) for c in case['cmds']]
+            return d
         d['command'] = 'RUN' if case.get('direct') is None else join(case['direct'])
         return d
 
@@ -1251,6 +1344,18 @@ class FlowCheck(core.Check):
                 prog = compile_prog(sp)
                 if valid_layout(prog):
                     yield {'k': 'struct', 'sp': sp, 'prog': prog, 'direct': None}
+            return
+        if 'cmds' in case:
+            cmds = case['cmds']
+            for i in range(1, len(cmds)):
+                if len(cmds) > 1:
+                    yield {'k': 'flat', 'prog': case['prog'], 'cmds': cmds[:i] + cmds[i + 1:]}
+            for i, c in enumerate(cmds):
+                if c is not None and len(c) > 1:
+                    for j in range(len(c)):
+                        yield {'k': 'flat', 'prog': case['prog'], 'cmds': cmds[:i] + [c[:j] + c[j + 1:]] + cmds[i + 1:]}
+            for sub in self._shrink_programs({'k': 'flat', 'prog': case['prog'], 'direct': None}):
+                yield {'k': 'flat', 'prog': sub['prog'], 'cmds': cmds}
             return
         prog, direct = case['prog'], case.get('direct')
         lines = split_lines(prog)
@@ -1274,6 +1379,10 @@ class FlowCheck(core.Check):
         for c in cases:
             if c['k'] == 'single':
                 hist['kind:single'] = hist.get('kind:single', 0) + 1
+                continue
+            if 'cmds' in c:
+                hist['kind:session'] = hist.get('kind:session', 0) + 1
+                hist['session commands'] = hist.get('session commands', 0) + len(c['cmds'])
                 continue
             hist['kind:' + c['k'] + (':direct' if c.get('direct') is not None else '')] = \
                 hist.get('kind:' + c['k'] + (':direct' if c.get('direct') is not None else ''), 0) + 1
@@ -1332,6 +1441,19 @@ def shrink_struct(sp):
     for i, (n, b) in enumerate(sp['subs']):
         for nb in shrink_block(b):
             yield {'main': sp['main'], 'subs': sp['subs'][:i] + [[n, nb]] + sp['subs'][i + 1:]}
+
+
+def show_session(r):
+    parts, cur = [], []
+    for x in r:
+        if x == 55555:
+            parts.append(show(cur))
+            cur = []
+        else:
+            cur.append(x)
+    if cur:
+        parts.append(show(cur))
+    return ' | '.join(parts)
 
 
 def show(r):
